@@ -553,7 +553,7 @@ def main(chk):
     rng = chk.rng
     cases = []
     cid = 0
-    for i in range(chk.pick(150, 2500)):
+    for i in range(chk.pick(400, 2500)):
         libseed = rng.randrange(1 << 30)
         for cfg in ("c", "native"):
             cid += 1
